@@ -65,6 +65,7 @@ def search(ctx):
     from ._adapters2 import SPEC_ONLY
 
     sdf_records_many(ctx)
+    wfn_component_order(ctx)
 
     for k, ad in SPEC_ONLY.items():
         K.c03_spec_only(ctx, ad, ctx.n(800, 3000) * (3 if ctx.escalated else 1))
@@ -106,7 +107,130 @@ def sdf_records_many(ctx):
             ctx.fail(bad[0], bad[1], {"kind": "sdf-many", "lines": lines})
 
 
+def _wfn_tokens(lines):
+    """positions (line index, start, end) of the per-primitive tokens of a WFN file: centre, type, exponent and, per
+    orbital, coefficient — fixed-width fields as AIMPAC prints them (20I3 / 20I3 / 5D14.7 / 5D16.8)"""
+    cen, typ, exp, mos = [], [], [], []
+    cur = None
+    for k, l in enumerate(lines):
+        body = l.rstrip("\n")
+        if body.startswith("CENTRE ASSIGNMENTS"):
+            cen += [(k, p, p + 3) for p in range(20, len(body), 3)]
+        elif body.startswith("TYPE ASSIGNMENTS"):
+            typ += [(k, p, p + 3) for p in range(20, len(body), 3)]
+        elif body.startswith("EXPONENTS"):
+            exp += [(k, p, p + 14) for p in range(10, len(body), 14)]
+        elif body.startswith("MO ") and "OCC NO" in body:
+            cur = []
+            mos.append(cur)
+        elif body.startswith("END DATA"):
+            cur = None
+        elif cur is not None:
+            cur += [(k, p, p + 16) for p in range(0, len(body), 16)]
+    return cen, typ, exp, mos
+
+
+def wfn_swap_components(text, rng):
+    """the same wavefunction with, inside one shell, the primitives of two Cartesian components listed in exchanged
+    order (every primitive carries its own type code, so any order is well-formed); None when the file has no l >= 1 shell"""
+    lines = text.splitlines(keepends=True)
+    cen, typ, exp, mos = _wfn_tokens(lines)
+    n = len(typ)
+    if not (len(cen) == len(exp) == n) or any(len(m) != n for m in mos) or not mos:
+        return None
+    codes = [int(lines[k][a:b]) for k, a, b in typ]
+    ncart_of = lambda c: 1 if c == 1 else 3 if c <= 4 else 6 if c <= 10 else 10 if c <= 20 else 15 if c <= 35 else 21  # noqa: E731
+    # batches as the format lays them out: ncon primitives of the first component, then of the second, ...
+    batches, i = [], 0
+    while i < n:
+        nc = ncart_of(codes[i])
+        ncon = 1
+        while i + ncon < n and codes[i + ncon] == codes[i]:
+            ncon += 1
+        if nc == 1:
+            i += ncon
+            continue
+        if i + nc * ncon <= n and len({codes[i + f * ncon] for f in range(nc)}) == nc:
+            batches.append((i, nc, ncon))
+            i += nc * ncon
+        else:
+            i += ncon
+    if not batches:
+        return None
+    i0, nc, ncon = rng.choice(batches)
+    fa, fb = rng.sample(range(nc), 2)
+
+    def swap(tokens):
+        for c in range(ncon):
+            (k1, a1, b1), (k2, a2, b2) = tokens[i0 + fa * ncon + c], tokens[i0 + fb * ncon + c]
+            t1, t2 = lines[k1][a1:b1], lines[k2][a2:b2]
+            lines[k1] = lines[k1][:a1] + t2 + lines[k1][b1:]
+            lines[k2] = lines[k2][:a2] + t1 + lines[k2][b2:]
+
+    for toks in (cen, typ, exp, *mos):
+        swap(toks)
+    return "".join(lines)
+
+
+def wfn_component_order(ctx):
+    """WFN files in which the components of a shell are listed in another order denote the same orbitals: the loaded
+    orbitals take the same values at probe points as those of the original file"""
+    import numpy as np
+
+    from . import _formats as F
+    from . import c01
+    from ..engine import REPO
+
+    rng = ctx.rng
+    names = ["h2o_sto3g.wfn", "he_p_orbital.wfn", "he_d_orbital.wfn", "he_spd_orbital.wfn", "he_spdf_orbital.wfn", "li_sp_orbital.wfn",
+             "lih_cation_uhf.wfn", "lif_fci.wfn"]
+    for name in names:
+        p = REPO / "iodata" / "test" / "data" / name
+        if not p.exists():
+            continue
+        text = p.read_text()
+        base = F.real_load(text.encode(), "wfn")
+        if not base.ok:
+            continue
+        pts = c01.probe_points(base.value.atcoords, 7, n=12)
+        v0 = c01.wf_values(base.value, pts)
+        for _ in range(ctx.n(3, 12)):
+            t2 = wfn_swap_components(text, rng)
+            if t2 is None or t2 == text:
+                continue
+            r = F.real_load(t2.encode(), "wfn")
+            bad = None
+            if not r.ok:
+                bad = f"a file with exchanged component order is refused: {r.err}"
+            else:
+                v1 = c01.wf_values(r.value, pts)
+                v0a = v0[0] if isinstance(v0, tuple) else v0
+                v1a = v1[0] if isinstance(v1, tuple) else v1
+                if np.shape(v0a) != np.shape(v1a) or float(np.abs(np.asarray(v1a) - np.asarray(v0a)).max()) > 1e-7 * (1 + float(np.abs(np.asarray(v0a)).max())):
+                    bad = "orbital values at the probe points differ from those of the file in default component order"
+            ctx.count("spec-py:wfn-component-order", t2[:3000], name + ("" if bad is None else "/FAIL"))
+            if bad:
+                ctx.fail("wfn:spec:component-order", f"{name}: {bad}", {"kind": "wfn-order", "file": name, "text": t2})
+                break
+
+
 def replay(ctx, obj):
+    if obj["input"].get("kind") == "wfn-order":
+        import numpy as np
+
+        from . import _formats as F
+        from . import c01
+        from ..engine import REPO
+
+        base = F.real_load((REPO / "iodata" / "test" / "data" / obj["input"]["file"]).read_bytes(), "wfn")
+        r = F.real_load(obj["input"]["text"].encode(), "wfn")
+        if not r.ok:
+            return True
+        pts = c01.probe_points(base.value.atcoords, 7, n=12)
+        v0, v1 = c01.wf_values(base.value, pts), c01.wf_values(r.value, pts)
+        v0 = v0[0] if isinstance(v0, tuple) else v0
+        v1 = v1[0] if isinstance(v1, tuple) else v1
+        return np.shape(v0) != np.shape(v1) or float(np.abs(np.asarray(v1) - np.asarray(v0)).max()) > 1e-7 * (1 + float(np.abs(np.asarray(v0)).max()))
     if obj["input"].get("kind") == "sdf-many":
         from . import _formats as F
         from . import c13
